@@ -144,7 +144,7 @@ def run_job(job, rec):
             rec.count("cases:many_parameters")
         A = rng.normal(size=(d, d))
         target = mc.GaussTarget(rng.normal(size=d) * 0.3, A @ A.T / d + 0.5 * np.eye(d))
-        T = float(rng.choice([1.0, 3.0])) if kind != "ensemble" else 1.0
+        T = float(rng.choice([1.0, 3.0, rng.uniform(1.05, 9.9), rng.uniform(1.05, 9.9)])) if kind != "ensemble" else 1.0   # (arbitrary values: 1/T is not exact)
         bounded = bool(rng.random() < 0.5)
         display = bool(rng.random() < 0.3)
         start = rng.normal(size=d) * 0.3
